@@ -158,10 +158,15 @@ class Pseudo2NetCDF:
                 pvar = pvar[...]
             nvar[...] = pvar
         elif isinstance(pvar[...], MaskedArray):
-            # fill with the value the output declares as its fill (that is
-            # what a reader masks on), then fall back as before
-            nvar[:] = pvar[...].filled(getattr(nvar, '_FillValue', getattr(
-                nvar, 'fill_value', getattr(pvar, 'missing_value', -9999))))
+            if isinstance(nvar, MaskedArray):
+                # an in-memory masked target keeps the mask itself
+                nvar[:] = pvar[...]
+            else:
+                # fill with the value the output declares as its fill (that
+                # is what a reader masks on), then fall back as before
+                nvar[:] = pvar[...].filled(getattr(
+                    nvar, '_FillValue', getattr(nvar, 'fill_value', getattr(
+                        pvar, 'missing_value', -9999))))
         else:
             nvar[:] = pvar[...]
 
